@@ -32,7 +32,7 @@ ASSUMPTIONS = [
 ALL_OPS = ["ctor_interval", "ctor_point", "ctor_bad", "crop", "erase", "space", "shift",
            "insert", "insert", "insert", "delete", "union", "difference", "intersection",
            "mergeLabels", "appendTier", "dejitter", "morph", "new", "roundtrip", "json_open",
-           "ctor_shared"]
+           "ctor_shared", "tg_edit"]
 
 
 def config(rng, tier):
@@ -339,6 +339,42 @@ def generate(run, rng):
                       "out": w.new_handle(), "tag": "E-shared-list"}
             else:
                 st = g.ctor_from_list(w, lh)
+        elif op == "tg_edit":
+            # tiers that come out of the Textgrid-level counterparts are reachable tiers too
+            tg = w.new_handle()
+            run.do({"op": "Textgrid", "a": [], "out": tg})
+            for hh in rng.sample(tiers, min(len(tiers), rng.randrange(1, 4))):
+                run.do({"op": "tg.addTier", "recv": tg, "a": [H(hh)], "k": {"reportingMode": "silence"}})
+            tgo = w.heap.get(tg)
+            if tgo is None or not tgo.tierNames:
+                continue
+            names = list(tgo.tierNames)
+            tpool = g.pool_of(tgo)
+            out_h = w.new_handle()
+            k = g.pick(["crop", "erase", "space", "shift", "merge", "append"])
+            if k == "crop":
+                a, b = g.span(tpool)
+                st = {"op": "tg.crop", "recv": tg, "a": [a, b, g.pick(CROP_MODES), rng.random() < 0.5], "out": out_h}
+            elif k == "erase":
+                a, b = g.span(tpool)
+                st = {"op": "tg.eraseRegion", "recv": tg, "a": [a, b, rng.random() < 0.5], "out": out_h}
+            elif k == "space":
+                st = {"op": "tg.insertSpace", "recv": tg, "a": [g.time(tpool), g.duration(), g.pick(SPACE_MODES)],
+                      "out": out_h}
+            elif k == "shift":
+                st = {"op": "tg.editTimestamps", "recv": tg, "a": [g.offset(), g.pick(REPORT)], "out": out_h}
+            elif k == "merge":
+                sel = None if rng.random() < 0.5 else rng.sample(names, rng.randrange(1, len(names) + 1))
+                st = {"op": "tg.mergeTiers", "recv": tg, "a": [sel, rng.random() < 0.6], "out": out_h}
+            else:
+                st = {"op": "tg.appendTextgrid", "recv": tg, "a": [H(tg), rng.random() < 0.5], "out": out_h}
+            o = run.do(st)
+            if o is not None and o.ok:
+                run.stats["probe:tier_from_textgrid_level_op"] += len(o.result.tierNames)
+                for nm in list(o.result.tierNames)[:2]:
+                    run.do({"op": "tg.getTier", "recv": out_h, "a": [nm], "out": w.new_handle()})
+            evict()
+            continue
         elif op == "json_open":
             fileno[0] += 1
             path = f"/simfs/c05_{fileno[0]}.json"
